@@ -1,0 +1,17 @@
+//go:build verif
+
+package cqueue
+
+// VerifHook, when set, is called at every schedule point of this package:
+//
+//	site 0: AtomicLIFO.Push between the load of top and the compare-and-swap (obj: the *AtomicLIFO)
+//	site 1: AtomicLIFO.Pop between the load of top (and of its next pointer) and the compare-and-swap (obj: the *AtomicLIFO)
+//	site 2: AtomicLIFO.Pop before the load of top (obj: the *AtomicLIFO)
+//	site 3: AtomicLIFO.Push before the load of top (obj: the *AtomicLIFO)
+var VerifHook func(site int, obj any)
+
+func verifPoint(site int, obj any) {
+	if h := VerifHook; h != nil {
+		h(site, obj)
+	}
+}
